@@ -40,7 +40,7 @@ def main(tier):
                 "the two operands' storage orders differ at the operation; distinct by the whole history")
     insts = instances(tier)
     jobs = [dict(module_path=MODULE, cfg=tlc.make_cfg(constants=c, invariants=["ArithByType", "Emit"], constraint="InOrder"),
-                 constants=c, coverage=True, workers=8, timeout=6000) for c in insts]
+                 constants=c, coverage=False, workers=8, timeout=6000) for c in insts]
     behaviours = []
     for r in tlc.run_many(jobs, parallel=2):
         chk.add_tlc(r, vacuity_actions=("New", "BuildAppend", "BinOp", "EqTest", "ScaleOp"))
@@ -64,6 +64,7 @@ def main(tier):
                 seen.add(h)
                 behaviours.append(c["hist"])
     chk.extra["instances"] = [{k: (sorted(map(str, v)) if isinstance(v, set) else v) for k, v in c.items()} for c in insts]
+    core.require_ops(behaviours, ["New", "BuildAppend", "Add", "Sub", "Eq", "Mul", "DivInv", "RoundTrip", "ViaVector"])
     for fails, n in core.pmap(storereplay.replay_chunk, core.shards(behaviours, 64)):
         chk.evaluations += n
         chk.traces += n
